@@ -1,7 +1,8 @@
 (* C06 - the hand model of Model/C06.v IS the interpretation (Model/C06_Skel.v) of the control
    skeleton that gotrans regenerates from src/core/cycle_detector.go (Gen/CycleVisit.v).
    Any change of the source that alters the regenerated skeleton breaks one of the *_shape lemmas. *)
-From PlzV Require Import Base.Harness Model.C06 Gen.CycleVisit Model.C06_Skel.
+From PlzV Require Import Base.Harness Model.C06 Gen.CycleVisit Model.C06_Skel Proof.C06.
+From Coq Require Import Permutation.
 
 (* What the proofs below are about: the skeleton as regenerated from the unchanged source. *)
 Lemma check_prologue_shape : check_prologue = [CStopped].
@@ -76,4 +77,18 @@ Theorem src_detect_eq g order : src_detect g order = detect g order.
 Proof.
   unfold src_detect, run_check, detect. rewrite check_prologue_shape. cbn [exec_prologue eval_cond].
   apply run_loop_eq; [apply run_visit_eq; exact visit_body_shape | exact check_body_shape].
+Qed.
+
+(* The statement of Props/C06.v, assembled: Proof/C06.v transported along src_detect_eq. *)
+Theorem src_detect_correct :
+  (forall g order, src_detect g order = detect g order)
+  /\ (forall g order c, src_detect g order = Found c -> is_cycle g c)
+  /\ (forall g order, wf g -> Permutation order (nodes g) ->
+        src_detect g order <> Fuel
+        /\ (has_cycle g -> exists c, src_detect g order = Found c /\ is_cycle g c)
+        /\ (~ has_cycle g -> src_detect g order = Clean)).
+Proof.
+  destruct detect_correct as [Hs Hc]. split; [exact src_detect_eq |]. split.
+  - intros g order c. rewrite src_detect_eq. apply Hs.
+  - intros g order Hwf Hperm. rewrite src_detect_eq. exact (Hc g order Hwf Hperm).
 Qed.
